@@ -154,6 +154,8 @@ def env_for(sc):
         env["NEXTEST_RETRIES"] = str(sc["retries"])
     if sc.get("no_capture"):
         env["NEXTEST_EXPERIMENTAL_LIBTEST_JSON"] = "1"
+    if sc.get("no_tests") and sc.get("no_tests_via") == "env":
+        env["NEXTEST_NO_TESTS"] = sc["no_tests"]
     return env or None
 
 
@@ -172,6 +174,8 @@ def cli_args(sc, profile):
         a += {"ff": ["--fail-fast"], "noff": ["--no-fail-fast"], "maxfail2": ["--max-fail", "2"]}[sc["failfast"]]
     if via.get("retries") == "cli":
         a += ["--retries", str(sc["retries"])]
+    if sc.get("no_tests") and sc.get("no_tests_via") != "env":
+        a += ["--no-tests", sc["no_tests"]]
     if sc.get("no_capture"):
         a += ["--no-capture"]
         if sc["no_capture"] != "human":
@@ -327,7 +331,8 @@ def oracle_C01(sc, res):
         if not (last["how"] == "exit-0" and exp[-1] in ("pass", "leak") and last["attempt"] == len(exp)):
             all_passed = False
     if not sel:
-        want = 4
+        # no test selected: 4 under the default (and explicit fail) policy, success under pass / warn
+        want = 0 if sc.get("no_tests") in ("pass", "warn") else 4
     elif all_passed:
         want = 0
     else:
@@ -728,6 +733,16 @@ def directed(prop):
                        expect=["pass"], mode="pass")]
         out.append(dict(tests=tests, retries=0, delay_ms=0, backoff="fixed", failfast="noff", threads=1, filter="_a",
                         run_ignored="default", sigint_at=0.4, priorities=None, groups=None))
+    if prop == "C01":
+        # an empty selection under each no-tests policy (command line and environment)
+        for pol, via in (("pass", "cli"), ("warn", "env"), ("fail", "cli"), (None, None)):
+            tests = [dict(bin="alpha::t1", name="t00_a", ignored=False, attempts=[{"sleep": 0.0, "exit": 0}],
+                          expect=["pass"], mode="pass"),
+                     dict(bin="beta::t1", name="t01_b", ignored=True, attempts=[{"sleep": 0.0, "exit": 1}],
+                          expect=["fail"], mode="fail")]
+            out.append(dict(tests=tests, retries=0, delay_ms=0, backoff="fixed", failfast="noff", threads=2,
+                            filter="matches_nothing", run_ignored="default", sigint_at=None, priorities=None,
+                            groups=None, no_tests=pol, no_tests_via=via))
     if prop in ("C01", "C03", "C17"):
         # terminated by nextest at its deadline, exits with status 0 within the grace period: the attempt
         # timed out, the run failed (exit status 100)
